@@ -3,6 +3,7 @@ package props
 import (
 	"bytes"
 	"fmt"
+	"io"
 	"testing"
 
 	"filippo.io/age"
@@ -158,6 +159,48 @@ func c01Gen(t *rapid.T) c01Case {
 	return c
 }
 
+// c01Interleaved: several files are opened (Decrypt) before any of them is
+// read; each must still yield its own plaintext.
+type c01Inter struct {
+	Lens  []int `json:"lens"`
+	Armor bool  `json:"armor"`
+	Order []int `json:"order"` // order in which the opened files are read
+}
+
+func c01CheckInterleaved(c c01Inter, st *stats.Run) error {
+	p := hx.ThePool()
+	st.Case(len(c.Lens) >= 2, stats.HashJSON(c), "interleaved", fmt.Sprintf("interleaved:files=%d", len(c.Lens)))
+	st.Sample("interleaved", c)
+	var plains [][]byte
+	var readers []io.Reader
+	for i, l := range c.Lens {
+		plain := hx.PRG(uint64(100+i), l)
+		rec := hx.RecSpec{Kind: []string{"x25519", "ed25519", "scrypt"}[i%3], Idx: i % 3, Pass: "pw", WF: 1}
+		file, err := encryptLib([]age.Recipient{p.Recipient(rec)}, plain, nil, c.Armor)
+		if err != nil {
+			return pbt.Failf("C01/encrypt-failed", "%v", err)
+		}
+		r, _, err := decryptReader(file, c.Armor, p.Identity(rec))
+		if err != nil {
+			return pbt.Failf("C01/recipient-cannot-decrypt", "file %d does not open: %v", i, err)
+		}
+		plains = append(plains, plain)
+		readers = append(readers, r)
+	}
+	for _, i := range c.Order {
+		i %= len(readers)
+		if readers[i] == nil {
+			continue
+		}
+		got, err := readAllPlan(readers[i], []int{4096})
+		readers[i] = nil
+		if err != nil || !bytes.Equal(got, plains[i]) {
+			return pbt.Failf("C01/interleaved-decrypt", "with %d files opened before reading, file %d decrypts to %d bytes, err %v (want %d bytes)", len(c.Lens), i, len(got), err, len(plains[i]))
+		}
+	}
+	return nil
+}
+
 func TestC01(t *testing.T) {
 	s := pbt.Start(t, "C01")
 	defer s.Finish()
@@ -198,4 +241,13 @@ func TestC01(t *testing.T) {
 		s.St.Exhaust("armored files: every plaintext length 0..200 x 1..2 recipients", int64(n))
 	}, check)
 	pbt.Rapid(s, "roundtrip", s.N(1500, 8000), c01Gen, check)
+	pbt.Rapid(s, "interleaved", s.N(300, 2000), func(t *rapid.T) c01Inter {
+		n := rapid.IntRange(2, 5).Draw(t, "nfiles")
+		c := c01Inter{Armor: rapid.Bool().Draw(t, "armor")}
+		for i := 0; i < n; i++ {
+			c.Lens = append(c.Lens, rapid.SampledFrom([]int{0, 1, 100, 5000, chunk + 1}).Draw(t, "len"))
+		}
+		c.Order = rapid.Permutation(seq(n)).Draw(t, "order")
+		return c
+	}, func(c c01Inter) error { return c01CheckInterleaved(c, s.St) })
 }
